@@ -257,7 +257,7 @@ func (m c08) Run(c *core.Ctx) {
 		m.program(c, f.src, f.mods, f.bm, nil, true)
 		c.Count("programs_fixed")
 	}
-	n := c.Pick(3, 40)
+	n := c.Pick(3, 150)
 	o := gen.Opts{MaxStmts: 20, MaxDepth: 3, ExprDepth: 2, Try: 0.4, Throw: 0.2, Funcs: 0.7, Shadow: 0.1, LogProb: 0.3, Globals: true, DeepRecursion: 8, Faults: 0.01, ImportProb: 0.2}
 	for i := 0; i < n; i++ {
 		o.Modules = 1 + c.Rng.Intn(3)
